@@ -163,7 +163,7 @@ def run_variant(ctx, hb, mexe, work, tag, env_extra, args, stats, findings):
                     why = "SPEC"
                 if len(fm) > 4 and fm[4] == "G1":
                     stats["guard_holds"] += 1
-                    if fi[4] not in ("ok", "skip", "skip-ctl") and not fi[4].startswith("off") and not fi[4].startswith("alias"):
+                    if fi[4] not in ("ok", "skip", "skip-ctl") and not fi[4].startswith("alias"):
                         why = why or ("the guard of C17_stream_chunk_independent_partial holds for this stream, yet the implementation "
                                       "does not produce the specified values (" + fi[4] + ")")
             prop = fi[4]
@@ -187,12 +187,8 @@ def run_variant(ctx, hb, mexe, work, tag, env_extra, args, stats, findings):
                                   "note": "bufPool recycling on (pool phase): option.LimitBufferSize at its default"}, True))
             elif prop.startswith("off"):
                 _, k_, got, lo, hi, ws = prop.split(":")
-                if int(got) < int(lo) and int(lo) - int(got) <= int(ws):
-                    stats["kf"][KF_OFF] += 1
-                    stats["kf_example"].setdefault(KF_OFF, describe(cs))
-                else:
-                    findings.append(("O", "InputOffset() after value %s is %s, outside [end of the value %s, next token %s]" % (k_, got, lo, hi),
-                                     {"case": describe(cs), "implementation": fi[1], "oracle(values|terminal)": fi[3]}, True))
+                findings.append(("O", "InputOffset() after value %s is %s, outside [encoding/json InputOffset = end of the value %s, next token %s]" % (k_, got, lo, hi),
+                                 {"case": describe(cs), "implementation": fi[1], "oracle(values|terminal)": fi[3]}, True))
             elif prop == "short":
                 findings.append(("T", "op string too short to reach the terminal condition", {"case": describe(cs)}, False))
         elif kind == "E":
